@@ -487,7 +487,8 @@ def stage(o, tier, seed):
     """Run the Exchanger family."""
     t0 = time.time()
     thorough = tier == "thorough"
-    design_done = design_check_start(o, tier)
+    # GROW_ONLY=conformance: mutation experiments judge the implementation only (the design check judges the spec)
+    design_done = design_check_start(o, tier) if os.environ.get("GROW_ONLY") != "conformance" else (lambda: None)
     try:
         g, _ = vlib.gen_schedules(o.pid, FAMILY, "ExchangerGen", "ExchangerGen.cfg", num=400 if thorough else 60, depth=900,
                                   seed=seed, limit=400 if thorough else 60)
